@@ -211,6 +211,30 @@ C13Raw(sn, calls, res) ==
   /\ (res = "ok" /\ FaultFree(calls) /\ sn.set.cached /\ ~sn.set.paused /\ sn.set.selectorOK) =>
         Cardinality(un) - Cardinality(del) <= lim
 
+(* C08 - the update revision mirrors the template (per-reconcile clauses)              *)
+SameTmpl(sn) == {x \in SeqToSet(Listed(sn.revs)) : x.tmpl = sn.set.tmpl}
+C08(sn, calls, res) ==
+  /\ \A k \in Idx(calls) :
+       LET c == calls[k] IN
+       \* a template that a listed revision already records never adds a revision; a new revision records the set's template
+       /\ IsRevCreate(c) => (SameTmpl(sn) = {} /\ Det(c) = sn.set.tmpl)
+       \* a rollback re-uses the earlier revision, renumbered above all others
+       /\ (IsRevUpdate(c) /\ Det(c) = "renumber") =>
+             /\ \E x \in SameTmpl(sn) : x.name = Name(c)
+             /\ \A x \in SeqToSet(Listed(sn.revs)) : Ints(c)[1] > x.num
+       \* a revision that collides on the name but holds other data is never written
+       /\ (IsWrite(c) /\ Res(c) = "controllerrevisions" /\ ~IsRevCreate(c)) =>
+             \E x \in SeqToSet(Listed(sn.revs)) : x.name = Name(c)
+       \* the recorded update revision is a stored revision whose data reproduces the set's template
+       /\ IsStatus(c) =>
+             /\ \/ \E x \in SeqToSet(sn.revs) : x.name = c[7][2] /\ x.tmpl = sn.set.tmpl
+                \/ \E j \in 1..(k - 1) : IsRevCreate(calls[j]) /\ OK(calls[j]) /\ Name(calls[j]) = c[7][2] /\ Det(calls[j]) = sn.set.tmpl
+             /\ Len(c[7]) >= 3 => c[7][3] = "upd-data-ok"        \* checked on the real objects by the harness
+             \* every name collision with different data was counted
+             /\ Ints(c)[6] >= sn.set.status.collisions +
+                   Cardinality({j \in 1..(k - 1) : IsRevCreate(calls[j]) /\ Result(calls[j]) = "AlreadyExists"
+                                                   /\ \E x \in SeqToSet(sn.revs) : x.name = Name(calls[j]) /\ x.tmpl # sn.set.tmpl})
+
 (* C10 - ownership                                                                     *)
 ForeignPod(p) == p.owner \in {"other", "stale"}
 ForeignRev(x) == x.owner \in {"other", "stale"}
